@@ -367,6 +367,45 @@ def run_ref_check(tier):
                                     "moved-from std::string contents are not compared"])
 
 
+# ---------------------------------------------------------------------------------------------- C12 elem
+ELEM_CONFIGS = [
+    ("P:u32,P:f32", "std"), ("P:char,P:u32@8", "s000"), ("P:Tr8,P:u16,P:str", "s010"), ("P:u32,F:f32", "s100"), ("F:f32@8,P:u32@16,F:f32", "s001"), ("F:uptr,P:uptr", "s000"),
+    ("F:str,P:str", "s110"), ("F:Tr4,P:u8,F:Tr24@8", "s011"), ("P:u32,C:u64@8,V:f32", "s000"), ("P:u32,C:u64@8,V:f32,C:u64@8,V:f32", "s111"), ("C:u64@8,V:f32@16,P:u32", "std"),
+    ("C:u8,V:u8,P:u16@4", "s101"), ("C:u64@8,V:uptr,P:uptr", "s000"), ("C:u64@8,V:str,P:str", "stdm"), ("C:u32,V:Tr4,P:Tr24", "s000"), ("P:u8,C:u16,V:Tr8@8,P:TrMv8", "s010"),
+    ("F:f32,P:u32,C:u64@8,V:f32", "s000d"), ("F:Tr8,C:u8,V:u16@2,P:Tr4@4", "s111d"), ("C:u32,V:Tr8,C:u8,V:str", "s000"), ("C:u16,V:B3,C:u32,V:u64@8", "s110"),
+]
+ELEM_RULE = "per case one source vector (2..5 elements in two size classes plus outliers) and a pool of 4 elements; sequences of <= 30 steps: construction from lvalue / const / rvalue references with and without allocator, copy / move / allocator-extended construction from elements, copy / move assignment (also into moved-from elements), element = reference and reference = element of equal sizes, swap, mutation of either side, destruction; after every step values, independence, allocator identity, block ownership, layout, alignment, object registry and ledger; non-trivial: >= 2 assignments between elements of different field sizes (lists without VaryingSize: >= 2 assignments); distinct: hash of the operation list"
+
+
+def elem_units(tier, seed):
+    configs = list(ELEM_CONFIGS)
+    if tier == "thorough":
+        configs = [(c, k) for c, k in configs] + [(c, "s000") for c, _ in ELEM_CONFIGS[:8]] + [(c, k[0]) for c, k in sampled_configs(seed + 300, 40)]
+    cases = 300 if tier == "quick" else 4000
+    if os.environ.get("VERIF_CASES"):
+        cases = int(os.environ["VERIF_CASES"])
+    flavours = ["plain", "asan"] if tier == "quick" else ["plain", "asan", "casan"]
+    units = []
+    seen = set()
+    for cfg, k in configs:
+        if (cfg, k) in seen:
+            continue
+        seen.add((cfg, k))
+        for fl in flavours:
+            a = {"seed": seed, "max-span": 5 if tier == "quick" else 12, "max-steps": 30 if tier == "quick" else 60}
+            units.append(Unit("elem", cfg, k, fl, a, cases if fl != "casan" else cases // 3, batch=50 if tier == "quick" else 200))
+    return units
+
+
+def run_elem_check(tier):
+    t0 = time.time()
+    units = elem_units(tier, vf.SEED)
+    errs = vf.run_units(units)
+    return vf.conclude("C12", tier, "exploration", units, errs, ELEM_RULE, t0,
+                       assumptions=["'element' is Vector::value_type, as in the property statement", "element = reference and reference = element only between equal field sizes (documented precondition)",
+                                    "swap of elements only between equal allocators unless propagate_on_container_swap"])
+
+
 def setup():
     units = []
     for prop in ["C01"]:
@@ -399,6 +438,8 @@ def units_for(prop, tier, seed):
         return cmp_units(prop, tier, seed)
     if prop == "C11":
         return ref_units(tier, seed)
+    if prop == "C12":
+        return elem_units(tier, seed)
     raise KeyError(prop)
 
 
@@ -411,6 +452,8 @@ def run_check(prop, tier):
         return run_cmp_check(prop, tier)
     if prop == "C11":
         return run_ref_check(tier)
+    if prop == "C12":
+        return run_elem_check(tier)
     sys.stderr.write("no check for %s\n" % prop)
     return 2
 
